@@ -14,6 +14,15 @@
 (*        | erswrap(e)                ers.Wrap(e, annotation)                  *)
 (*        | panic(e)                  ers.ParsePanic(e)                        *)
 (*        | panics(es)                ers.ParsePanic([]error{es...})           *)
+(*        | tail(e)                   errors.Unwrap(e) of a *ers.Stack value   *)
+(*                                    holding >= 2 errors (merged.go Unwrap):  *)
+(*                                    an INTERIOR node of the linked list -    *)
+(*                                    a non-nil *ers.Stack whose cached count  *)
+(*                                    is 0 - holding every constituent but the *)
+(*                                    most recently pushed one.  Generated     *)
+(*                                    only where the model knows which one     *)
+(*                                    that is (TailOK); used as result and as  *)
+(*                                    operand of every aggregator (TailCtx).   *)
 (*      with nil allowed in every argument position, and the "nil-like" and    *)
 (*      "holey" operands of XAtoms:                                            *)
 (*        nstack                      a typed-nil *ers.Stack (ers.AsStack(nil), *)
@@ -113,7 +122,7 @@ Exposed(x) == \/ x.op \in HOps \cup {"nstack"}
 RECURSIVE Terms(_)
 Terms(d) == IF d = 0 THEN Atoms
             ELSE LET S == Terms(d - 1) IN
-                 S \cup {Un(o, x) : o \in UnOps \ {"wrap1"}, x \in S}
+                 S \cup {Un(o, x) : o \in UnOps \ {"wrap1", "tail"}, x \in S}
                    \cup {Un("wrap1", x) : x \in {y \in S : "wrap1" \in UnOps /\ ~Exposed(y)}}
                    \cup {Nary(o, xs) : o \in NOps, xs \in Tuples(S, MaxArity)}
 
@@ -143,6 +152,8 @@ Cons(t, p) ==
                            ELSE Cons(t.args[1], Child(p, 1)) \o <<"ann@" \o p>>
     [] t.op = "panic"   -> IF ~NonNil(t.args[1], Child(p, 1)) THEN <<>>
                            ELSE Cons(t.args[1], Child(p, 1)) \o <<"RP">>
+    [] t.op = "tail"    -> LET c == Cons(t.args[1], Child(p, 1)) IN          \* all but the most recent (TailOK: it is the last one)
+                           IF Len(c) >= 2 THEN SubSeq(c, 1, Len(c) - 1) ELSE <<>>
 
 \* is the Go value a non-nil interface?
 NonNil(t, p) ==
@@ -156,6 +167,7 @@ NonNil(t, p) ==
     [] t.op \in {"join", "sres", "coll", "panics"} -> Cons(t, p) # <<>>
     [] t.op = "erswrap" -> ~OkT(t.args[1], Child(p, 1))
     [] t.op = "panic"   -> NonNil(t.args[1], Child(p, 1))
+    [] t.op = "tail"    -> Len(Cons(t.args[1], Child(p, 1))) >= 2          \* an interior node; Unwrap() of a 1-element Stack is nil
 
 \* ers.Ok(value): nil, or an empty / nil *Stack       (... but ers.Ok says it is no error: ers.go Ok, merged.go Ok)
 OkT(t, p) == ~NonNil(t, p) \/ (t.op \in {"stack", "nstack"} /\ Cons(t, p) = <<>>)
@@ -165,6 +177,11 @@ DeepLeaves(t, p) ==
   CASE t.op = "nil"   -> {}
     [] t.op = "leaf"  -> {t.id}
     [] t.op = "panic" -> IF NonNil(t.args[1], Child(p, 1)) THEN DeepLeaves(t.args[1], Child(p, 1)) \cup {"RP"} ELSE {}
+    [] t.op = "tail"  -> LET x == t.args[1]  q == Child(p, 1)
+                             ne == {i \in 1..Len(x.args) : Cons(x.args[i], Child(q, i)) # <<>>}
+                             last == CHOOSE i \in ne : \A j \in ne : j <= i IN
+                         IF Len(Cons(x, q)) < 2 THEN {}
+                         ELSE UNION {DeepLeaves(x.args[i], Child(q, i)) : i \in ne \ {last}}
     [] OTHER          -> UNION {DeepLeaves(t.args[i], Child(p, i)) : i \in 1..Len(t.args)}
 
 \* the value of t is one plain (non-aggregate) error supplied by the caller: which one
@@ -243,12 +260,33 @@ OracleSane(t) ==
   /\ (\A i \in 1..Len(c) : c[i] \in AllLeaves => c[i] \in DeepLeaves(t, Root))   \* every leaf constituent is reachable
 
 --------------------------------------------------------------------------
+\* tail(x) is generated only where the model knows WHICH constituent errors.Unwrap drops: x is a *Stack value
+\* (ers.Join / Stack.Resolve with >= 2 constituents, or the *Stack itself) whose last non-empty direct argument
+\* is one plain constituent (a leaf or a singly wrapped error) - that one was pushed last and sits at the head.
+TailOK(x) ==
+  /\ x.op \in {"join", "sres", "stack"}
+  /\ Len(Cons(x, "q")) >= 2
+  /\ LET ne == {i \in 1..Len(x.args) : Cons(x.args[i], Child("q", i)) # <<>>}
+         last == CHOOSE i \in ne : \A j \in ne : j <= i
+     IN  x.args[last].op \in {"leaf", "wrap1"}
+
+\* the interior node as the observed result, below the unary operators, and as an operand (first, last, only)
+\* of every n-ary aggregator next to a plain atom
+TailTerms == {Un("tail", x) : x \in {y \in Terms(1) : TailOK(y)}}
+TailCtx == TailTerms
+           \cup {Un(o, tt) : o \in UnOps \ {"tail"}, tt \in TailTerms}
+           \cup {Nary(o, <<tt>>) : o \in NOps, tt \in TailTerms}
+           \cup {Nary(o, <<tt, a>>) : o \in NOps, tt \in TailTerms, a \in PlainAtoms}
+           \cup {Nary(o, <<a, tt>>) : o \in NOps, tt \in TailTerms, a \in PlainAtoms}
+
+--------------------------------------------------------------------------
 \* (a) exhaustive enumeration: every term of depth <= MaxDepth is an initial state
 VARIABLES t, stk, n
 vars == <<t, stk, n>>
 
 EnumInit == t \in {x \in Terms(MaxDepth) : ~Exposed(x)} /\ stk = <<>> /\ n = 0
 EnumNext == FALSE /\ UNCHANGED vars
+TailInit == t \in TailCtx /\ stk = <<>> /\ n = 0
 EnumSpec == EnumInit /\ [][EnumNext]_vars
 EmitBoth(x) == /\ PrintT(<<"BEH", ToJson(Obs(x, Plain))>>)
                /\ (Probes(x, Root) = {} \/ PrintT(<<"BEH", ToJson(Obs(x, Repeated))>>))
@@ -263,7 +301,8 @@ Min(a, b) == IF a < b THEN a ELSE b
 SimInit == t = Nil /\ stk = <<>> /\ n = 0
 PushAtom == stk' = Append(stk, RandomElement(Atoms))
 ApplyUn  == /\ Len(stk) >= 1
-            /\ LET ops == IF Exposed(stk[Len(stk)]) THEN UnOps \ {"wrap1"} ELSE UnOps IN
+            /\ LET top == stk[Len(stk)]
+                   ops == {o \in UnOps : (o = "wrap1" => ~Exposed(top)) /\ (o = "tail" => TailOK(top))} IN
                stk' = [stk EXCEPT ![Len(stk)] = Un(RandomElement(ops), @)]
 ApplyN   == /\ Len(stk) >= 1
             /\ LET k == RandomElement(1..Min(MaxArity, Len(stk))) IN
